@@ -66,6 +66,24 @@ def gen_straddle(rng, i):
     return "p%d %s %s %s" % (i, ca, cb, " ".join(ops)), "straddle"
 
 
+def gen_finflush(rng, i):
+    """honest network: the sender writes two to three receive buffers' worth and closes at once (its FIN flush puts everything on the wire, window or
+    not), the segments are reordered, lost and duplicated by the network while the reader drains now and then: segments that only partly fit are
+    saved right-trimmed, their duplicates later in full, and the out-of-order list is recovered over both when the gap is filled"""
+    conv = rng.choice([0, 7, rng.randrange(1 << 32)])
+    rb = rng.choice([2000, 3000, 4000, 4096, 5000])
+    ca = "0:0:1:%d:1:1:%d" % (rng.choice([100, 0]), conv)
+    cb = "%d:0:1:%d:1:1:%d" % (rb, rng.choice([100, 0]), conv)
+    ops = ["cA", "N", "N", "N", "sA%d:%d" % (rng.choice([2, 3]) * rb + rng.choice([0, 500, 1000]), rng.randrange(1, 250)), "hA1"]
+    for _ in range(rng.randrange(6, 22)):
+        ops.append(rng.choice(["N", "N", "N", "X", "D1", "D2", "U0", "U1", "U2", "rB2000", "rB1000", "rB4000"]))
+    t = 1000
+    for _ in range(rng.randrange(1, 4)):
+        t += rng.choice([300, 1000, 3000]); ops += ["T%d" % t, "kA"] + [rng.choice(["N", "N", "U0", "U1", "rB2000"]) for _ in range(rng.randrange(1, 6))]
+    ops += ["Q6", "rB200000", "Q6", "rB200000", "hB1", "Q6", "rA200000", "rB200000", "nA0", "nB0"]
+    return "f%d %s %s %s" % (i, ca, cb, " ".join(ops)), "finflush"
+
+
 def gen_early(rng, i):
     """data that overtakes the connect segment: simultaneous open (or a passive side that answers and is established by the next segment), the
     connect segment of the side that becomes established first is lost, the data it sends straight away arrives at a peer still in
@@ -120,6 +138,8 @@ def gen_case(rng, i, kinds):
     kind = rng.choice(kinds)
     if kind == "straddle":
         return gen_straddle(rng, i)
+    if kind == "finflush":
+        return gen_finflush(rng, i)
     if kind == "heal":
         return gen_heal(rng, i)
     if kind == "early":
